@@ -349,6 +349,11 @@ impl LockFreeMemoryPool {
         if size == 0 {
             return Err(ZiporaError::invalid_data("Cannot allocate zero bytes"));
         }
+        // Larger than the whole arena: can never be served, and align_size() below
+        // would overflow for sizes close to usize::MAX
+        if size > self.config.memory_size {
+            return Err(ZiporaError::out_of_memory(size));
+        }
 
         let aligned_size = self.align_size(size);
 
@@ -363,6 +368,9 @@ impl LockFreeMemoryPool {
     pub fn deallocate(&self, ptr: NonNull<u8>, size: usize) -> Result<()> {
         if size == 0 {
             return Ok(());
+        }
+        if size > self.config.memory_size {
+            return Err(ZiporaError::invalid_data("Size larger than pool memory"));
         }
 
         let aligned_size = self.align_size(size);
